@@ -1,0 +1,54 @@
+//go:build verif
+
+package index
+
+import (
+	"context"
+
+	"github.com/ipld/go-storethehash/store/types"
+)
+
+// Accessors for the verification harness in /verif. Compiled only with the
+// "verif" build tag; they add no behaviour.
+
+// VerifBuckets returns a copy of the live in-memory bucket table.
+func (idx *Index) VerifBuckets() []types.Position {
+	idx.bucketLk.RLock()
+	defer idx.bucketLk.RUnlock()
+	out := make([]types.Position, len(idx.buckets))
+	copy(out, idx.buckets)
+	return out
+}
+
+// VerifGC runs one index GC cycle synchronously.
+func (idx *Index) VerifGC(ctx context.Context, scanFree bool) (int64, int, error) {
+	return idx.gc(ctx, scanFree)
+}
+
+// VerifPools returns copies of the unflushed and last-flushed record-list
+// pools.
+func (idx *Index) VerifPools() (next, cur map[uint32][]byte) {
+	idx.bucketLk.RLock()
+	defer idx.bucketLk.RUnlock()
+	next = make(map[uint32][]byte, len(idx.nextPool))
+	for b, d := range idx.nextPool {
+		next[uint32(b)] = append([]byte(nil), d...)
+	}
+	cur = make(map[uint32][]byte, len(idx.curPool))
+	for b, d := range idx.curPool {
+		cur[uint32(b)] = append([]byte(nil), d...)
+	}
+	return next, cur
+}
+
+// VerifFileNum returns the number of the index file being appended to.
+func (idx *Index) VerifFileNum() uint32 {
+	idx.flushLock.Lock()
+	defer idx.flushLock.Unlock()
+	return idx.fileNum
+}
+
+// VerifGCResume reports the GC resume state.
+func (idx *Index) VerifGCResume() (bool, uint32) {
+	return idx.gcResume, idx.gcResumeAt
+}
